@@ -37,6 +37,9 @@ var osRedirects = map[string]string{
 	"(*os.File).Chmod":         "VFileChmod",
 	"(*os.File).Sync":          "VFileSync",
 	"(*os.File).Truncate":      "VFileTruncate",
+	"(*os.File).ReadDir":       "VFileReadDir",
+	"(*os.File).Readdirnames":  "VFileReaddirnames",
+	"(*os.File).Readdir":       "VFileReaddir",
 }
 
 func registerOS(eng *Engine) {
